@@ -155,6 +155,9 @@ func (c schedCfg) multiset() string {
 		if e.Kind == "file" {
 			items = append(items, e.Path+"="+e.Content)
 		}
+		if e.Kind == "bigfile" {
+			items = append(items, e.Path+"=<16 MiB + 1 of zeros>")
+		}
 	}
 	sort.Strings(items)
 	return strings.Join(items, ";")
@@ -177,6 +180,12 @@ func materialiseEntries(root string, es []hentry) {
 		switch e.Kind {
 		case "file":
 			os.WriteFile(full, []byte(e.Content), 0o644)
+		case "bigfile":
+			// 16 MiB + 1 of zeros (sparse): past any size at which an implementation might switch strategy
+			if f, err := os.Create(full); err == nil {
+				f.Truncate(16<<20 + 1)
+				f.Close()
+			}
 		case "dir":
 			os.MkdirAll(full, 0o755)
 		case "dangling":
@@ -297,6 +306,11 @@ func schedConfigs(prop, tier string) []schedCfg {
 			add(es, l, cpu, true, 1, eb)
 		}
 	}
+	// a file large enough for a different reading strategy (the environment may shrink it meanwhile)
+	bes := []hentry{{Kind: "bigfile", Path: "big"}, {Kind: "file", Path: "a", Content: "x"}}
+	add(bes, []int{0}, 1, true, 1, 1)
+	add(bes, []int{0}, 2, true, 1, 1)
+	add(bes, []int{1, 0}, 1, true, -1, 0)
 	if thorough {
 		// sizes around the worker-count boundary
 		for n := 4; n <= 5; n++ {
